@@ -46,7 +46,7 @@ CHECKS = {
  'C20': dict(
     text='Domain value lists, probe values, factor/weight shapes and label/factor pairings are chosen by solver variables; the real FiniteDomain/RangeDomain/FiniteFactor/add_factor/add_domain/shape code is executed for every choice and compared with the definition '
          '(mutually inverse numberings, contains, equality by content; weights accepted iff shapes agree; apply returns exactly the symbolic cell at the numberized position; binding succeeds iff terminal, arity and domains match and the label is unbound; rejected calls change nothing).',
-    note='Bounds: value lists of length <=3 (quick) / <=4 from a 10-element pool of mixed hashable values; sizes 0..3, ranks <=2; weights as nested lists (concrete sentinels), Tensor or PatternedTensor (symbolic cells); 360 binding combinations. '
+    note='Bounds: value lists of length <=3 (quick) / <=4 from a 10-element pool of mixed hashable values; sizes 0..3, ranks <=2; weights as nested lists (concrete sentinels), Tensor or PatternedTensor (symbolic cells); 1560 binding combinations (label type x terminal? x factor sizes x content variant {same, other values of equal size at the first/last position, reordered, equal-size RangeDomain} x already bound? x domain table). '
          'Outside: nested lists for shapes with a zero before the last axis (inexpressible); patterned weights with non-trivial sparsity patterns are covered by C06 __getitem__.',
     technique='bounded symbolic execution (symbolic value lists and shapes) + SMT identity of applied cells', design='5/C20'),
  'C17': dict(
